@@ -24,6 +24,10 @@ def knobs(name, slice_unit):
     return LEAN if slice_unit else ["-DVF_CONV_MAP=2", "-DVF_CONV_MD=1", "-DVF_SVEC=0"]
 
 
+MD_GROUPS = ["-DVF_GMASK=0xFF"]    # C19_md.cpp groups 0-7 (views / arrays); group 8 (two objects) is built as separate C19_two_* units
+TWO_GROUP = ["-DVF_GMASK=0x100"]
+
+
 def defs(name, ctype, lo, hi, step=1, extra=()):
     return [f"-DVF_IDX={ctype}", f'-DVF_IDX_NAME="{name}"', f"-DVF_PLO={lo}", f"-DVF_PHI={hi}", f"-DVF_PSTEP={step}"] + list(extra)
 
@@ -44,22 +48,46 @@ for kind in ("ext", "map", "md"):
         # int32 and uint64, every 2nd pattern for the other six index types)
         full = primary or name == "uint64" or kind != "md"
         for n, (lo, hi) in enumerate(slices(kind) if full else [(0, 53), (53, NG)]):
-            units.append(Unit(f"C19_{kind}_{name}_p{n}", src, defs=defs(name, ctype, lo, hi, 1 if full else 2, knobs(name, False)),
+            units.append(Unit(f"C19_{kind}_{name}_p{n}", src, defs=defs(name, ctype, lo, hi, 1 if full else 2, knobs(name, False) + (MD_GROUPS if kind == "md" else [])),
                               flavours={"quick": [O0] if primary else [], "thorough": [O0]},
                               shards={"quick": 2, "thorough": 2}))
         if not primary:
             # quick: a slice of the pattern list (every 2nd pattern for uint64, every 6th/8th for the others)
             step = (2 if kind != "md" else 3) if name == "uint64" else (6 if kind != "md" else 8)
-            units.append(Unit(f"C19_{kind}_{name}_s", src, defs=defs(name, ctype, 0, NG, step, knobs(name, True)),
+            units.append(Unit(f"C19_{kind}_{name}_s", src, defs=defs(name, ctype, 0, NG, step, knobs(name, True) + (MD_GROUPS if kind == "md" else [])),
                               flavours={"quick": [O0], "thorough": []}, shards={"quick": 1, "thorough": 1}))
     # thorough extras on a slice (every 4th pattern, int32): optimised build, contract checks off, no sanitizer (canary bands)
-    units.append(Unit(f"C19_{kind}_int32_x", src, defs=defs("int32", "int", 0, NG, 4),
+    units.append(Unit(f"C19_{kind}_int32_x", src, defs=defs("int32", "int", 0, NG, 4, MD_GROUPS if kind == "md" else []),
                       flavours={"quick": [], "thorough": ["asan-cc", "asanO0-nocc", "plain-cc"]}, shards={"quick": 1, "thorough": 2}))
 # C++23: multidimensional operator[] of mdspan / mdarray
-units.append(Unit("C19_md_int32_cxx23", "harness/C19_md.cpp", std="c++23", defs=defs("int32", "int", 0, NG, 4),
+units.append(Unit("C19_md_int32_cxx23", "harness/C19_md.cpp", std="c++23", defs=defs("int32", "int", 0, NG, 4, MD_GROUPS),
                   flavours={"quick": [], "thorough": [O0]}, shards={"quick": 1, "thorough": 2}))
-units.append(Unit("C19_md_uint64_cxx23", "harness/C19_md.cpp", std="c++23", defs=defs("uint64", "unsigned long", 0, NG, 9),
+units.append(Unit("C19_md_uint64_cxx23", "harness/C19_md.cpp", std="c++23", defs=defs("uint64", "unsigned long", 0, NG, 9, MD_GROUPS),
                   flavours={"quick": [O0], "thorough": []}, shards={"quick": 1, "thorough": 1}))
+
+# two objects in different run-time states (swap / assignment / copy / move of mdarray and mdspan, both objects re-checked in full):
+# group 8 of C19_md.cpp. quick: every 2nd pattern for int32, a slice for the other index types; thorough: full list for int32 and
+# uint64, every 4th pattern for the others, plus -O1 / no-contract-check / unsanitized builds of an int32 slice.
+for name, ctype in IDX:
+    if name == "int32":
+        for n, (lo, hi) in enumerate([(0, R4), (R4, NG)]):
+            units.append(Unit(f"C19_two_int32_q{n}", "harness/C19_md.cpp", defs=defs(name, ctype, lo, hi, 2, TWO_GROUP),
+                              flavours={"quick": [O0], "thorough": []}, shards={"quick": 1, "thorough": 1}))
+    else:
+        units.append(Unit(f"C19_two_{name}_s", "harness/C19_md.cpp", defs=defs(name, ctype, 0, NG, 5 if name == "uint64" else 9, TWO_GROUP),
+                          flavours={"quick": [O0], "thorough": []}, shards={"quick": 1, "thorough": 1}))
+    full = name in ("int32", "uint64")
+    for n, (lo, hi) in enumerate([(0, R4), (R4, 60), (60, NG)] if full else [(0, NG)]):
+        units.append(Unit(f"C19_two_{name}_p{n}", "harness/C19_md.cpp", defs=defs(name, ctype, lo, hi, 1 if full else 4, TWO_GROUP),
+                          flavours={"quick": [], "thorough": [O0]}, shards={"quick": 1, "thorough": 2}))
+units.append(Unit("C19_two_int32_x", "harness/C19_md.cpp", defs=defs("int32", "int", 0, NG, 4, TWO_GROUP),
+                  flavours={"quick": [], "thorough": ["asan-cc", "asanO0-nocc", "plain-cc"]}, shards={"quick": 1, "thorough": 1}))
+
+# 64-bit index types, offsets beyond 2^31 / 2^32 (mapping-only, __int128 model)
+for name, ctype in [("int64", "long"), ("uint64", "unsigned long"), ("int64ll", "long long"), ("uint64ll", "unsigned long long")]:
+    second = name.endswith("ll")  # long long / unsigned long long: same width, distinct types - thorough only
+    units.append(Unit(f"C19_big_{name}", "harness/C19_big.cpp", defs=[f"-DVF_IDX={ctype}", f'-DVF_IDX_NAME="{name}"'],
+                      flavours={"quick": [] if second else [O0], "thorough": [O0, "asan-cc", "asan-nocc", "plain-cc"]}, shards={"quick": 4, "thorough": 4}))
 
 for e, tn in enumerate(["uchar", "int", "tri12", "constint"]):
     units.append(Unit(f"C19_span_{tn}", "harness/C19_span.cpp", defs=[f"-DVF_ELEM={e}"],
@@ -67,6 +95,12 @@ for e, tn in enumerate(["uchar", "int", "tri12", "constint"]):
 
 PROBES = {1: "stride_rank0", 2: "span_bytes", 3: "ctad_mdarray", 4: "stride_rss", 5: "stride_exh", 6: "stride_eq",
           7: "stride_from", 8: "canon_from_stride", 9: "subext", 10: "subext_pair", 11: "subext_cpair"}
+# probe 12 (mdspan assignment / swap) does not compile on a tree without proposed/C19/fixes3/0001 (etl::mdspan is not assignable):
+# switch it on together with that fix or with the findings3.jsonl line; until then the C19_two_* units detect the operators with a
+# trait and report them as absent in the evidence samples.
+ENABLE_MDSPAN_ASSIGN_PROBE = False
+if ENABLE_MDSPAN_ASSIGN_PROBE:
+    PROBES[12] = "mdspan_assign"
 for n, pn in PROBES.items():
     units.append(Unit(f"C19_probe_{pn}", "harness/C19_probe.cpp", defs=[f"-DVF_PROBE={n}", "-DVF_IDX=int", '-DVF_IDX_NAME="int32"'],
                       flavours={"quick": ["asan-cc"], "thorough": ["asan-cc", "asan-nocc"]}, shards={"quick": 1, "thorough": 1}))
